@@ -20,7 +20,7 @@ func init() {
 
 // errOriginStop: the functions the specified origin sets name; every other in-module callee is a helper
 // whose own error results are expanded.
-var errOriginStop = map[string]bool{"parse": true, "stringsToNodes": true}
+var errOriginStop = map[string]bool{"parse": true}
 
 // errOrigins: where can a returned error value come from? Expands in-module callees.
 func errOrigins(p *Prog, qz *quantizer, fb *fnBounds, v ssa.Value, at *ssa.Return, seen map[ssa.Value]bool, depth int) []string {
@@ -322,13 +322,14 @@ func rulesC04(p *Prog, r *Report) {
 	bp := newBoundsProver(p, eng)
 	expect := map[string][]string{
 		"ExtractLicenses": {"spdxexp.parse(param:expression)#1"},
+		// helpers are expanded down to parse: where a check sits (in Satisfies or in a helper that builds the
+		// allowed set) and which of two errors wins on doubly invalid input is not part of the property
 		"Satisfies": {"spdxexp.parse(param:testExpression)#1",
 			"errors.New under (len(param:allowedList) == 0)",
-			"spdxexp.stringsToNodes(param:allowedList)#1"},
-		"stringsToNodes": {"spdxexp.parse(elem(param:licenseStrings))#1",
-			"errors.New under (*spdxexp.node).isExpression(spdxexp.parse(elem(param:licenseStrings))#0)"},
+			"spdxexp.parse(elem(param:allowedList))#1",
+			"errors.New under (*spdxexp.node).isExpression(spdxexp.parse(elem(param:allowedList))#0)"},
 	}
-	for _, name := range []string{"ExtractLicenses", "Satisfies", "stringsToNodes"} {
+	for _, name := range []string{"ExtractLicenses", "Satisfies"} {
 		f := p.Func(p.ExpPkg, name)
 		if f == nil {
 			r.Unknown("V4", name, "-", "unresolved anchor")
@@ -348,6 +349,30 @@ func rulesC04(p *Prog, r *Report) {
 				}
 				for _, o := range errOrigins(p, qz, fb, ret.Results[i], ret, map[ssa.Value]bool{}, 0) {
 					got[normaliseGuard(o)] = true
+				}
+			}
+		}
+		// a guard that only says "an earlier check did not fire" (the negation of the whole guard of another
+		// origin) expresses precedence among errors, not validity: dropped
+		for changed := true; changed; {
+			changed = false
+			for g := range got {
+				if !strings.HasPrefix(g, "errors.New under ") {
+					continue
+				}
+				parts := strings.Split(strings.TrimPrefix(g, "errors.New under "), " && ")
+				var keep []string
+				for _, part := range parts {
+					if strings.HasPrefix(part, "!") && got["errors.New under "+strings.TrimPrefix(part, "!")] && len(parts) > 1 {
+						continue
+					}
+					keep = append(keep, part)
+				}
+				if len(keep) != len(parts) {
+					delete(got, g)
+					got["errors.New under "+strings.Join(keep, " && ")] = true
+					changed = true
+					break
 				}
 			}
 		}
